@@ -2600,9 +2600,10 @@ class Circuit(AbstractCircuit):
         groups = _group_until_different(insertions, key=lambda e: e[0], val=lambda e: e[1])
         for i, group in groups:
             insert_index = i + shift
-            next_index = copy.insert(insert_index, reversed(group), InsertStrategy.EARLIEST)
-            if next_index > insert_index:
-                shift += next_index - insert_index
+            length_before = len(copy)
+            copy.insert(insert_index, reversed(group), InsertStrategy.EARLIEST)
+            # Later insertion points move by the number of moments this insertion created.
+            shift += len(copy) - length_before
         self._moments = copy._moments
         self._mutated()
 
